@@ -20,7 +20,7 @@ import (
 
 // Op is one operation of a program.
 type Op struct {
-	Op   string      `json:"op"`           // set copy del inc push keep emit emitb ifhas ifeq fail loop
+	Op   string      `json:"op"`           // set copy copyin del inc push keep emit emitb ifhas ifeq fail loop
 	K    string      `json:"k,omitempty"`  // binding name
 	K2   string      `json:"k2,omitempty"` // second name (copy)
 	V    interface{} `json:"v,omitempty"`  // constant
@@ -94,6 +94,18 @@ func runOps(ops []Op, bs map[string]interface{}, emitted *[]interface{}) *failur
 		case "copy":
 			if v, have := bs[op.K]; have {
 				bs[op.K2] = fw.Plain(v)
+			}
+		case "copyin":
+			// bs[K] = bs[K2][V] if bs[K2] is an object that has V; otherwise K is unbound
+			done := false
+			if m, ok := bs[op.K2].(map[string]interface{}); ok {
+				if v, have := m[op.V.(string)]; have {
+					bs[op.K] = fw.Plain(v)
+					done = true
+				}
+			}
+			if !done {
+				delete(bs, op.K)
 			}
 		case "del":
 			delete(bs, op.K)
@@ -230,6 +242,9 @@ func jsOps(sb *strings.Builder, ops []Op, ind string) {
 			fmt.Fprintf(sb, "%sbs[%s] = %s;\n", ind, k, js(op.V))
 		case "copy":
 			fmt.Fprintf(sb, "%sif (bs.hasOwnProperty(%s)) { bs[%s] = JSON.parse(JSON.stringify(bs[%s])); }\n", ind, k, js(op.K2), k)
+		case "copyin":
+			k2, v := js(op.K2), js(op.V)
+			fmt.Fprintf(sb, "%sif (bs[%s] !== null && typeof bs[%s] === 'object' && !Array.isArray(bs[%s]) && bs[%s][%s] !== undefined) { bs[%s] = JSON.parse(JSON.stringify(bs[%s][%s])); } else { delete bs[%s]; }\n", ind, k2, k2, k2, k2, v, k, k2, v, k)
 		case "del":
 			fmt.Fprintf(sb, "%sdelete bs[%s];\n", ind, k)
 		case "inc":
